@@ -259,6 +259,38 @@ def validate_batch(module, cfg, trace_path, timeout=900, max_failures=None):
                 all_lines=[t[1] for t in traces])
 
 
+def api_oracle(traces, timeout=900):
+    """The second, coarser oracle (spec/MuxApi.tla via spec/MuxApiTrace.tla): the application-level clauses of the mux
+    family evaluated over WHOLE traces, also behind the point where a trace stopped conforming to PenguinMux.
+    traces: list of lists of ndjson lines (each starting with its `reset` event).
+    Returns a list, per trace, of [(line_in_trace, {clause names})]."""
+    if not traces:
+        return []
+    tmpdir = tempfile.mkdtemp(prefix="api_", dir=WORK)
+    try:
+        path = os.path.join(tmpdir, "traces.ndjson")
+        starts, acc = [], 0
+        with open(path, "w") as f:
+            for t in traces:
+                starts.append(acc)
+                f.writelines(t)
+                acc += len(t)
+        r = validate_once("MuxApiTrace", "MuxApiTrace", path, timeout=timeout, raw=True)
+        m = re.search(r'<<"APIVIOL", "(.*)">>', r["out"])
+        if not m:
+            log(r["out"][-2000:])
+            raise ToolError("MuxApiTrace did not run to the end")
+        found = json.loads(m.group(1).encode().decode("unicode_escape"))
+        res = [[] for _ in traces]
+        for rec in found:
+            ln = rec["line"]
+            k = max(i for i, s0 in enumerate(starts) if s0 < ln)
+            res[k].append((ln - starts[k], set(rec["viol"])))
+        return res
+    finally:
+        shutil.rmtree(tmpdir, ignore_errors=True)
+
+
 def summarize_event(r):
     if r.get("ev") == "task":
         return f"{r['e']} task gr={r['gr']} gs={r['gs']} rcv={r['rcv']['op']}:{r['rcv']['id']} sent={[(m['op'], m['id'], m['n'], m['len']) for m in r['sent']]} -> {r['res']} woke={r.get('woke')}"
